@@ -177,6 +177,11 @@ func c09Scope(e enum.Embed, lineK, lineN, clipN int, withClosedSubject bool, lev
 		// lineN == 5 stands for the family of all 4-vertex open polylines
 		la = &lineAlpha{k: lineK, e: e, four: true, nv: 4, step: 1, size: enum.PathCount(lineK, 4)}
 	}
+	if lineN >= 40 && lineN < 50 {
+		// lineN = 40+s stands for every s-th 4-vertex open polyline (s coprime to 9)
+		st := uint64(lineN - 40)
+		la = &lineAlpha{k: lineK, e: e, four: true, nv: 4, step: st, size: (enum.PathCount(lineK, 4) + st - 1) / st}
+	}
 	if lineN >= 50 {
 		// lineN = 50+s stands for every s-th 5-vertex open polyline (s coprime to 9)
 		st := uint64(lineN - 50)
@@ -199,6 +204,9 @@ func c09Scope(e enum.Embed, lineK, lineN, clipN int, withClosedSubject bool, lev
 	}
 	if withClosedSubject {
 		name = fmt.Sprintf("open3/lines(L%d,2) x every %d-th closed subject of P(3,3) x every %d-th clip of P(3,%d)/%s", lineK, stride, stride, clipN, e.Name)
+		if la.four {
+			name = fmt.Sprintf("open3/every %d-th %d-vertex polyline over L%d x every %d-th closed subject of P(3,3) x every %d-th clip of P(3,%d)/%s", la.step, la.nv, lineK, stride, stride, clipN, e.Name)
+		}
 	}
 	gen := func(idx uint64) c09Input {
 		lb = la.get(idx%la.size, lb)
@@ -295,20 +303,20 @@ func init() {
 	drv.Register(&drv.Check{
 		ID:    "C09",
 		Title: "Open subject paths are cut exactly at the clip region boundary",
-		Rule: "every open polyline with 2-3 vertices over L(4), every open loop p0,p1,p2,p0, every 4-vertex and every 7th [every] 5-vertex open polyline over L(3) (zigzags, horizontal spikes at a flat top, doubled-back horizontal runs, notches below a peak; horizontal segments, starting/ending on clip edges and vertices included) x every clip of P(3,3) [and P(3,4)] under stride-10 and sheared embeddings x 4 clip types x 4 fill rules through Clipper64.AddPaths(open)+ExecuteOC; a three-party scope (2-point line x closed subject P(3,3) x clip P(3,3)) for the Union clause; on every 32nd input ClipperD(0).ExecuteOC and ExecutePolyTree64. " +
+		Rule: "every open polyline with 2-3 vertices over L(4), every open loop p0,p1,p2,p0, every 4-vertex and every 7th [every] 5-vertex open polyline over L(3) (zigzags, horizontal spikes at a flat top, doubled-back horizontal runs, notches below a peak; horizontal segments, starting/ending on clip edges and vertices included) x every clip of P(3,3) [and P(3,4)] under stride-10 and sheared embeddings x 4 clip types x 4 fill rules through Clipper64.AddPaths(open)+ExecuteOC; three-party scopes (2-point line, and every 7th 4-vertex polyline, x closed subject P(3,3) x clip P(3,3)) for the Union clause and for open paths crossing each other inside a closed subject; on every 32nd input ClipperD(0).ExecuteOC and ExecutePolyTree64. " +
 			"Oracle: each subject segment sampled at t=(2j+1)/32 (exact rationals); a sample > 2 units (exact) from every closed input edge is classified by exact winding and fill rule: expected covered (Intersection: in clip; Difference: not in clip; Union: in neither closed region) => within 1 unit of the open solution, otherwise farther than 0.5; every open-solution vertex and segment midpoint within 1.5 of the subject lines; closed solution bit-identical to the one computed without the open paths. non-trivial = input with a sample that must be covered",
 		Assumptions:      []string{"lines of <= 5 vertices, one clip polygon of <= 4 vertices; float64 distances with 1e-6 guard on coordinates < 2^12"},
 		RequiredCounters: []string{"inputs_with_a_covered_sample_point"},
 		Scopes: func(tier string) []*drv.Scope {
 			var out []*drv.Scope
 			if tier == "quick" {
-				out = append(out, c09Scope(enum.Eax, 4, 2, 3, false, 1, 1), c09Scope(enum.Esh, 3, 3, 3, false, 2, 3), c09Scope(enum.Eax, 3, 2, 3, true, 3, 13), c09Scope(enum.Eax, 3, 4, 3, false, 3, 10), c09Scope(enum.Eax, 3, 5, 3, false, 4, 10), c09Scope(enum.Eax, 3, 57, 3, false, 5, 37))
+				out = append(out, c09Scope(enum.Eax, 4, 2, 3, false, 1, 1), c09Scope(enum.Esh, 3, 3, 3, false, 2, 3), c09Scope(enum.Eax, 3, 2, 3, true, 3, 13), c09Scope(enum.Eax, 3, 4, 3, false, 3, 10), c09Scope(enum.Eax, 3, 5, 3, false, 4, 10), c09Scope(enum.Eax, 3, 57, 3, false, 5, 37), c09Scope(enum.Eax, 3, 47, 3, true, 5, 41))
 				return out
 			}
 			for _, e := range []enum.Embed{enum.Eax, enum.Esh} {
 				out = append(out, c09Scope(e, 4, 2, 3, false, 1, 1), c09Scope(e, 4, 3, 3, false, 2, 1), c09Scope(e, 4, 2, 4, false, 3, 1), c09Scope(e, 3, 2, 3, true, 3, 5))
 			}
-			out = append(out, c09Scope(enum.Eax, 4, 3, 4, false, 4, 1), c09Scope(enum.Eax, 3, 4, 3, false, 3, 1), c09Scope(enum.Esh, 4, 4, 3, false, 4, 3), c09Scope(enum.Eax, 3, 5, 3, false, 4, 1), c09Scope(enum.Esh, 3, 5, 3, false, 4, 4), c09Scope(enum.Eax, 3, 51, 3, false, 5, 10), c09Scope(enum.Esh, 3, 52, 3, false, 5, 37))
+			out = append(out, c09Scope(enum.Eax, 4, 3, 4, false, 4, 1), c09Scope(enum.Eax, 3, 4, 3, false, 3, 1), c09Scope(enum.Esh, 4, 4, 3, false, 4, 3), c09Scope(enum.Eax, 3, 5, 3, false, 4, 1), c09Scope(enum.Esh, 3, 5, 3, false, 4, 4), c09Scope(enum.Eax, 3, 51, 3, false, 5, 10), c09Scope(enum.Esh, 3, 52, 3, false, 5, 37), c09Scope(enum.Eax, 3, 42, 3, true, 5, 20))
 			return out
 		},
 	})
